@@ -249,7 +249,13 @@ using L8 = Layout<TbfMemoryMultiRVector<float, 7>>;
 using L9 = Layout<TbfMemoryScalar<E100>, TbfMemoryScalar<E3>, TbfMemoryVector<E2>, TbfMemoryMultiVVector<E2, 2>>;
 using L10 = Layout<TbfMemoryMultiRVector<uint64_t, 3>, TbfMemoryVector<E3>, TbfMemoryMultiRVector<E128, 1>>;
 using L11 = Layout<TbfMemoryVector<E24>, TbfMemoryVector<E1>, TbfMemoryVector<E64>, TbfMemoryVector<E2>>;
-constexpr int NbLayouts = 12;
+// sub-blocks whose alignment template arguments differ (all >= 8 so that every element keeps its natural alignment): the offset of a
+// sub-block is then not a multiple of the alignment of its predecessor / successor
+using L12 = Layout<TbfMemoryScalar<E24, 8>, TbfMemoryVector<double, 64>>;
+using L13 = Layout<TbfMemoryVector<E3, 8>, TbfMemoryMultiRVector<double, 3, 32>, TbfMemoryVector<E24, 16>, TbfMemoryScalar<E8, 128>>;
+using L14 = Layout<TbfMemoryMultiVVector<E2, 2, 16>, TbfMemoryVector<E100, 8>, TbfMemoryVector<long, 64>>;
+using L15 = Layout<TbfMemoryVector<E1, 128>, TbfMemoryVector<E8, 8>, TbfMemoryMultiRVector<float, 7, 64>, TbfMemoryScalar<E3, 16>>;
+constexpr int NbLayouts = 16;
 
 std::string propMem(const FmmCase& c){
     hc::Stats& st = hc::stats();
@@ -258,7 +264,8 @@ std::string propMem(const FmmCase& c){
     switch(l){
     case 0: return L0::run(c, st); case 1: return L1::run(c, st); case 2: return L2::run(c, st); case 3: return L3::run(c, st);
     case 4: return L4::run(c, st); case 5: return L5::run(c, st); case 6: return L6::run(c, st); case 7: return L7::run(c, st);
-    case 8: return L8::run(c, st); case 9: return L9::run(c, st); case 10: return L10::run(c, st); default: return L11::run(c, st);
+    case 8: return L8::run(c, st); case 9: return L9::run(c, st); case 10: return L10::run(c, st); case 11: return L11::run(c, st);
+    case 12: return L12::run(c, st); case 13: return L13::run(c, st); case 14: return L14::run(c, st); default: return L15::run(c, st);
     }
 }
 
